@@ -77,8 +77,10 @@ def gen_member(rng, mbs, j, allow_nt):
 def gen_spec(rng, stream):
     bs = rng.choice([[3], [3], [2], [3, 2], [2, 2], [2, 1], [4]])
     if stream == "clean":
-        root = gen_td(rng, bs, rng.choice([0, 1, 2, 2, 3]), allow_lazy=False, allow_nt=rng.random() < 0.5, top=True)
-        return {"root": root, "lock": rng.choice(["lock_", "lock_", "lock_", "lock_", "memmap_", "none"])}
+        allow_nt = rng.random() < 0.5
+        root = gen_td(rng, bs, rng.choice([0, 1, 2, 2, 3]), allow_lazy=False, allow_nt=allow_nt, top=True)
+        locks = ["lock_", "lock_", "lock_", "lock_", "memmap_", "none"] + ([] if allow_nt else ["params"])
+        return {"root": root, "lock": rng.choice(locks)}
     if stream == "lazyroot":
         mbs = bs[1:]
         m0 = gen_member(rng, mbs, 0, allow_nt=rng.random() < 0.4)
@@ -114,6 +116,8 @@ def gen_program(rng, stream, nops):
         pool = CLEAN
         if spec["lock"] == "memmap_":
             pool = [k for k in CLEAN if k not in ("sub_unlock",)]   # D7: members of a memmap_-locked tree unlock alone
+        if spec["lock"] == "params":
+            spec["root"].pop("names", None)
     elif stream == "lazyroot":
         pool = CLEAN + ["names", "member_relock_edit", "rename_"]
     else:
